@@ -236,10 +236,13 @@ pub struct Exec {
     pub nontrivial: bool,
     /// extra distribution tags
     pub tags: Vec<String>,
+    /// the request to put to the model when it differs from the op line (e.g. it carries values
+    /// observed while running the implementation, like the creation timestamp the tool chose)
+    pub model_line: Option<String>,
 }
 impl Exec {
     pub fn new(imp: String) -> Exec {
-        Exec { imp, oracle_fail: None, known_key: String::new(), nontrivial: true, tags: vec![] }
+        Exec { imp, oracle_fail: None, known_key: String::new(), nontrivial: true, tags: vec![], model_line: None }
     }
     pub fn fail(mut self, f: Option<String>) -> Exec {
         if self.oracle_fail.is_none() { self.oracle_fail = f; }
@@ -260,18 +263,24 @@ impl Ctx {
 }
 
 /// Compare a batch of (line, impl answer, nontrivial) against the model.
-pub fn compare_batch(ctx: &mut Ctx, rep: &mut Report, batch: &mut Vec<(String, String, bool)>) {
+pub fn compare_batch(ctx: &mut Ctx, rep: &mut Report, batch: &mut Vec<(String, String, bool, Option<String>)>) {
     if batch.is_empty() {
         return;
     }
     // BP7H_PINNED=op1,op2: ask the model for its rendition of the pinned (pre-fix) code
     let pinned: Vec<String> = std::env::var("BP7H_PINNED").map(|v| v.split(',').map(|s| s.to_string()).collect()).unwrap_or_default();
     let lines: Vec<String> = batch.iter().map(|x| {
-        let op = x.0.split(' ').next().unwrap_or("");
-        if pinned.iter().any(|p| p == op) { x.0.replacen(op, &format!("{}.pinned", op), 1) } else { x.0.clone() }
+        let l = x.3.as_ref().unwrap_or(&x.0);
+        let op = l.split(' ').next().unwrap_or("");
+        if pinned.iter().any(|p| p == op) { l.replacen(op, &format!("{}.pinned", op), 1) } else { l.clone() }
     }).collect();
     let answers = ctx.model.ask(&lines);
-    for ((line, imp, nt), m) in batch.iter().zip(answers.iter()) {
+    for ((line, imp, nt, _), m) in batch.iter().zip(answers.iter()) {
+        if m.trim_end() == "unmodelled" {
+            // the model declares the input outside what it represents: not compared
+            rep.count("model:unmodelled");
+            continue;
+        }
         rep.case(line, imp, m, *nt);
         // for `spec.*` ops the model's answer is the independent reference: a difference is a
         // failure of the property oracle, not only a correspondence break
